@@ -84,6 +84,28 @@ func shutConfigs() []shutCfg {
 			w.closerAfterRun()
 		}
 	})
+	add("shutdown-from-onopen/registered", false, func(w *world) {
+		// OnOpen of a connection handed in through Engine.Register (not accepted by a listener)
+		// answers Shutdown
+		w.onOpen = func(w *world, ci *connInfo) ([]byte, Action) { return nil, Shutdown }
+		w.script = func(w *world) {
+			sched.Go("user", func() {
+				w.waitBoot()
+				sched.WaitIdle() // OnBoot runs before the event loops exist
+				nc, pfd, err := socketpairConn()
+				if err != nil {
+					w.violate("client:socketpair", "%v", err)
+					return
+				}
+				p := w.newPeer()
+				p.fd = pfd
+				if _, err := w.eng.Register(NewNetConnContext(context.Background(), nc)); err != nil {
+					w.violate("ctl:Register", "Register: %v", err)
+				}
+			})
+			w.closerAfterRun()
+		}
+	})
 	add("shutdown-from-ontraffic", false, func(w *world) {
 		w.onTraffic = func(w *world, ci *connInfo) Action { return Shutdown }
 		w.script = func(w *world) {
